@@ -384,7 +384,7 @@ theorem convert_document_ids (wb : Workbook) (text : Str) (h : convert wb false 
 example : ∃ ch parsed, canonChoices exWb.choices = some ch ∧ parseDoc exText = some parsed ∧
     secondaryIds (eproj parsed) = (Choices.Spec.listNames Choices.listKey ch).map normAttrVal := by
   obtain ⟨ch, parsed, h1, h2, h3, -⟩ :=
-    convert_document_ids exWb exText ex_convert (fun d hd => (namesClean_of_B ex_clean d hd).1)
+    convert_document_ids exWb exText ex_convert (fun d hd => namesClean_of_B ex_clean d hd)
   exact ⟨ch, parsed, h1, h2, h3⟩
 
 end Pyxv.ConvertC09
